@@ -77,7 +77,7 @@ def c09_streams(tier, rng):
     ml, mp = (4, 6) if q else (5, 7)
     n = 4000 if q else 150000
     kinds = ("head", "tail", "skip")
-    orc = {"view", "app", "end"}
+    orc = {"view", "app", "end", "nopanic"}
     return [
         Stream("single-step", "adapt", gens.lts_single_step(kinds, ml, mp), adapt_nontriv, True,
                "head/tail/skip x {static,dyninit,dynamic} x {unbatched,batched}: source [1..n] n<=%d x limit/count 0..%d x every diff kind with every index 0..n+1 (Append/Reset of 0..3 items) and every limit/count change 0..%d -> 0..%d; every adapter state is an initial state, so this covers the whole transition function up to the bounds; non-trivial = a diff is emitted" % (ml, mp, mp, mp),
@@ -92,7 +92,7 @@ def c10_streams(tier, rng):
     q = tier == "quick"
     ml = 4 if q else 5
     n = 4000 if q else 150000
-    orc = {"view", "app", "end"}
+    orc = {"view", "app", "end", "nopanic"}
     return [
         Stream("single-step", "adapt", gens.filter_single_step(ml), adapt_nontriv, True,
                "filter/filter_map x {unbatched,batched}: source [0..n-1] n<=%d x all 2^n pass/fail assignments x every applicable diff with passing (6) and failing (7) new items, Append/Reset with every pass/fail pattern up to 3 items" % ml,
@@ -106,7 +106,7 @@ def c11_streams(tier, rng):
     q = tier == "quick"
     ml = 3 if q else 4
     n = 4000 if q else 150000
-    orc = {"view", "app", "end", "sortcontract"}
+    orc = {"view", "app", "end", "sortcontract", "nopanic"}
     return [
         Stream("single-step", "adapt", gens.sort_single_step(ml), adapt_nontriv, True,
                "sort/sort_by/sort_by_key x {unbatched,batched}: sources of n<=%d items over keys {0,1,2} (all tie patterns; item = key*10+position) x every applicable diff with new keys 0,1,2" % ml,
@@ -194,4 +194,73 @@ PROPS.update({
                 strength="partial: adapters' poll loops proved; the source stream's waiter list (tokio broadcast, ReusableBoxFuture) is modelled in C05-C08, not re-proved here",
                 level_text="Coq theorems on the poll-loop model, generic in the adapter: a poll answers Pending only after, in that very call, the inner stream answered Pending and the limit stream answered Pending or its terminal end, with nothing deliverable left (ready buffer and queues empty); and a drained adapter stays Pending until an input has something. Tied to the five poll_next loops by comparing the complete poll trace of both inputs on every poll and checking will_wake on every stored waker.",
                 level_note="Trusted: as C09, plus the Stream contract of the inputs."),
+})
+
+
+# ---------------------------------------------------------------- C12 chains
+def chain_hist(case, obs):
+    st = case.split(" :: ")[0].split(" | ")[1:]
+    return ">".join(":".join(s.split(":")[:2] + (["self"] if s.endswith(":self") else [])) for s in st)
+
+
+def c12_streams(tier, rng):
+    q = tier == "quick"
+    ntr, per = (150, 4) if q else (2000, 30)
+    cases = gens.chain_cases(rng, True, ntr, per)
+    orc = {"stage0", "stage1", "stage2", "nopanic"}
+    return [Stream("chains", "chain", cases, adapt_nontriv, False,
+                   "all 841 two-stage chains over {head,tail,skip} x {static p in 0/2/5, dyninit, dynamic, dynamic handed over by itself} + filter/filter_map (4 masks) and %d seeded three-stage chains, %d random histories each (source diffs, batches, limit changes of any stage, full drains), per-stage taps; sort is exercised as a single stage in C11 only" % (ntr, per),
+                   chain_hist, oracles=orc)]
+
+
+PROPS["C12"] = dict(
+    streams=c12_streams, trusted=ADAPT_TRUST + ["chains are evaluated stage by stage to quiescence in the model (all cases use full drains)"],
+    assumptions=["every stage satisfies its one-step theorem (C09-C11)", "known finding tail_shrink_over_len excluded (a chain is claimed only while no stage is in a recorded class)",
+                 "hand-over by the adapter itself happens at a quiescent point (at construction)"],
+    strength="full given C09-C11; inherits their known-finding classes",
+    level_text="Coq theorems: if two stages satisfy the one-step correctness statement then so does their composition (the lower stage's guarantee that every emitted diff is applicable to its view is the upper stage's input guard), for limit changes of either stage, for chains of any length by iteration (stated for three), lifted to whole histories; and into_parts of Head/Tail/Skip returns the current view. Tied to the crate by running all two-stage chains and sampled three-stage chains of the real adapters with taps between the stages.",
+    level_note="Trusted: as C09. Known finding F4 (tail_shrink_over_len) is inherited and reported as KNOWN-FINDING; F7 (into_parts handed the source copy) was repaired in 8c08ab1.")
+
+
+# ---------------------------------------------------------------- observable value
+OBS_TRUST = [KERNEL, EXTRACTION, CORR,
+             "std::sync::RwLock, Arc/Weak counters, readlock::Shared modelled at operation granularity (one call = one atomic transition); DefaultHasher as a function (harness checks at start that the hash classes used do not collide)",
+             "u64 version counter modelled as unbounded nat: fewer than 2^64-1 notifying updates"]
+
+
+def obs_nontriv(case, obs):
+    return "R:" in obs or " w" in obs
+
+
+def obs_hist(case, obs):
+    ops = case.split(" :: ")[1].split(" ; ")
+    return case.split(" :: ")[0] + "/" + (ops[-3].split("(")[0] if len(ops) >= 3 else "-")
+
+
+def obs_streams(orc):
+    def f(tier, rng):
+        q = tier == "quick"
+        ml = 2 if q else 3
+        n = 4000 if q else 150000
+        return [
+            Stream("exhaustive", "obs", gens.obs_exhaustive(ml), obs_nontriv, True,
+                   "every sequence of <= %d calls over a 22-call alphabet (all six setters with equal / hash-equal / different values, subscribe(_reset), poll, next_now, reset, clone, drop of subscribers, clone / drop / downgrade / upgrade / into_shared of handles, counts), from a fresh handle and from a handle with one pending subscriber, on Observable, SharedObservable and through write guards" % ml,
+                   obs_hist, oracles=orc),
+            Stream("random", "obs", gens.obs_random(rng, n), obs_nontriv, False,
+                   "%d seeded random histories of 10..40 calls (up to ~8 subscribers, several clones and weak references), ending with all owners dropped and every subscriber polled" % n,
+                   obs_hist, oracles=orc),
+        ]
+    return f
+
+
+PROPS.update({
+    "C01": dict(streams=obs_streams({"spec"}), trusted=OBS_TRUST,
+                assumptions=["single-threaded histories (thread interleavings: C02/C04)", "fewer than 2^64-1 notifying updates"],
+                level_text="Coq theorem: the implementation model (version counter + observed_version) refines, call by call and for whole histories, the specification written from the property text (current value + one unseen flag per subscriber) - for all values, equality/hash functions, numbers of subscribers and call sequences. Tied to state.rs/subscriber.rs/unique.rs/shared.rs by an exhaustive short-history run and random histories on Observable, SharedObservable and write guards, with the specification re-implemented in the harness as an independent oracle.",
+                level_note="Trusted: Coq kernel, extraction, harness; locks/Arc at operation granularity; version counter unbounded."),
+    "C19": dict(streams=obs_streams({"spec"}), trusted=OBS_TRUST,
+                assumptions=["default (sync) lock flavour; the async flavour is handled with C16"],
+                strength="full for the default lock flavour; async flavour: see C16 / known findings",
+                level_text="Coq theorems: the four count functions report exactly the populations of owners, live subscribers and weak references, and every call changes those populations by exactly the handles it creates or drops (delta table), in every reachable state. Tied to the crate by calling the real count functions inside the C01 histories (counts is part of the alphabet) and comparing with the model and with the harness's own handle bookkeeping.",
+                level_note="Trusted: as C01. Arc::strong_count/weak_count are read at quiescent moments only."),
 })
